@@ -122,6 +122,32 @@ func init() {
 		b.b = append(b.b, sl.A...)
 		return Tuple{int64(len(sl.A)), Iface{}}
 	}
+	models["bytes.NewBuffer"] = func(p *Path, fn *ssa.Function, a []Value) Value {
+		cell := new(Value)
+		*cell = Struct{} // opaque: the state lives in the side table, keyed by this cell
+		sl, _ := a[0].(Slice)
+		p.side[cell] = &bufState{b: append([]Value(nil), sl.A...)}
+		return cell
+	}
+	models["bytes.NewBufferString"] = func(p *Path, fn *ssa.Function, a []Value) Value {
+		cell := new(Value)
+		*cell = Struct{}
+		p.side[cell] = &bufState{b: append([]Value(nil), strBytes(a[0])...)}
+		return cell
+	}
+	models["(*bytes.Buffer).WriteTo"] = func(p *Path, fn *ssa.Function, a []Value) Value {
+		b := p.buf(a[0])
+		itf := a[1].(Iface)
+		dst, ok := itf.V.(*Value)
+		if !ok {
+			panic(unsupported("bytes.Buffer.WriteTo a writer that is not a *bytes.Buffer"))
+		}
+		d := p.buf(dst)
+		n := len(b.b)
+		d.b = append(d.b, b.b...)
+		b.b = nil
+		return Tuple{int64(n), Iface{}}
+	}
 	models["(*bytes.Buffer).Bytes"] = func(p *Path, fn *ssa.Function, a []Value) Value {
 		b := p.buf(a[0])
 		return Slice{A: append(make([]Value, 0, len(b.b)), b.b...)}
